@@ -47,10 +47,17 @@ struct Kid {
 }
 
 static KID: Mutex<Option<Kid>> = Mutex::new(None);
+/// a second child whose process has no logger installed (every `log` / `tracing` call site disabled): what the code under test
+/// does must not depend on whether anybody listens to what it logs
+static KID_QUIET: Mutex<Option<Kid>> = Mutex::new(None);
 
-fn spawn() -> Kid {
+fn spawn() -> Kid { spawn_with(false) }
+
+fn spawn_with(quiet: bool) -> Kid {
     let exe = std::env::current_exe().unwrap();
-    let mut child = Command::new(exe)
+    let mut cmd = Command::new(exe);
+    if quiet { cmd.env("VERIF_LOG", "off"); } else { cmd.env_remove("VERIF_LOG"); }
+    let mut child = cmd
         .arg("__child")
         .stdin(Stdio::piped())
         .stdout(Stdio::piped())
@@ -84,10 +91,15 @@ pub fn guarded(op: &str, input: &[u8]) -> Outcome {
     guarded_timeout(op, input, std::time::Duration::from_secs(secs))
 }
 
-pub fn guarded_timeout(op: &str, input: &[u8], limit: std::time::Duration) -> Outcome {
-    let mut g = KID.lock().unwrap();
+pub fn guarded_timeout(op: &str, input: &[u8], limit: std::time::Duration) -> Outcome { guarded_in(false, op, input, limit) }
+
+/// the same operation in the child that runs without a logger
+pub fn guarded_timeout_quiet(op: &str, input: &[u8], limit: std::time::Duration) -> Outcome { guarded_in(true, op, input, limit) }
+
+fn guarded_in(quiet: bool, op: &str, input: &[u8], limit: std::time::Duration) -> Outcome {
+    let mut g = if quiet { KID_QUIET.lock().unwrap() } else { KID.lock().unwrap() };
     if g.is_none() {
-        *g = Some(spawn());
+        *g = Some(spawn_with(quiet));
     }
     let kid = g.as_mut().unwrap();
     let req = format!("{} {}\n", op, hx(input));
